@@ -140,6 +140,15 @@ CHECKS.update({
         design="4/C17"),
 })
 
+CHECKS.update({
+    "C13": dict(
+        level="model_checking",
+        technique="exhaustive enumeration of every corpus layout and of generated layout / notes-master placeholder populations, plus explicit-state BFS (replay mode) over add_slide / move / text / notes / save histories, executed on the real API against an expected-placeholder model computed from the layout XML by a bare-lxml reader",
+        text="All 178 layouts of the 68 corpus decks; generated layouts with every single placeholder over 17 types x orientation x idx x xfrm x sz x 2 masters (2176), all pairs over a reduced product (18k; thorough 92k pairs + 59k triples); notes slides on every deck and 1088 generated notes masters; BFS to depth 3 (thorough 4) over 13 operations from 3 decks. Each new slide mirrors type/idx/orient/sz one-for-one in order, with distinct names, layout (else master) geometry, is last, related to its layout, leaves other slides unchanged, in memory and after save/re-open.",
+        note="Trusted: mc/props/c13_lib.py (bare-lxml placeholder reader and inheritance rule of the standard), generated decks of mc/props/c13_gen.py (harness-side zip rewriting). With duplicate idx values in one layout any layout placeholder sharing the idx is accepted as counterpart (weaker reading).",
+        design="4/C13"),
+})
+
 NOT_BUILT = "check not completed yet (machinery under construction; see DESIGN.md section 8)"
 
 def main():
